@@ -221,8 +221,8 @@ Definition rsub (u : unique) (l : list nat) : list nat :=
   u_items (u_new (filter (fun x => negb (u_contains u x)) l)).
 
 Definition d_take (d : defn) (objs props : option (list nat)) (reorder : bool) : res defn :=
-  let bad_o := match objs with Some (_ :: _ as l) => negb (forallb (u_contains (d_objs d)) l) | _ => false end in
-  let bad_p := match props with Some (_ :: _ as l) => negb (forallb (u_contains (d_props d)) l) | _ => false end in
+  let bad_o := match objs with Some (x :: r) => negb (forallb (u_contains (d_objs d)) (x :: r)) | _ => false end in
+  let bad_p := match props with Some (x :: r) => negb (forallb (u_contains (d_props d)) (x :: r)) | _ => false end in
   if bad_o || bad_p then Raise KeyError
   else
     let obj := if reorder then match objs with Some l => u_new l | None => d_objs d end
